@@ -462,43 +462,79 @@ func Check(c Case) *kit.Violation {
 		if (verr == nil) != (verr3 == nil) {
 			return kit.Failf("REVALIDATE after toggling the JSON defaults back: Validate returned %v, the first validation returned %v\n%s", verr3, verr, c.brief())
 		}
+		// the registrations are again what they were: so are the category and the lists (judged against the model) (r10)
+		if v := c.judge(verr3, "REVALIDATE after toggling the JSON defaults back: "); v != nil {
+			return v
+		}
 	}
 
+	if v := c.judge(verr, ""); v != nil {
+		return v
+	}
+	cats := c.Model()
+	if ff := FirstFailing(cats); ff >= 0 {
+		// the usual way on from a failed validation: register what it names as missing and validate again. The verdict is
+		// the model's for the registrations as they are now (r10: a second validation must not work from what the first left behind)
+		if k := cats[ff]; k.Name == "operation" && len(k.Missing()) > 0 {
+			c3 := c
+			c3.RegOps = append([]RegOp(nil), c.RegOps...)
+			var verr4 error
+			if v := kit.Guard("RegisterOperation/Validate after a failed validation", func() {
+				for _, name := range k.Missing() {
+					method, path, _ := strings.Cut(name, " ")
+					api.RegisterOperation(method, path, runtime.OperationHandlerFunc(func(interface{}) (interface{}, error) { return M{"ok": true}, nil }))
+					c3.RegOps = append(c3.RegOps, RegOp{Method: method, Path: path})
+				}
+				verr4 = api.Validate()
+			}); v != nil {
+				return kit.Failf("%s\n%s", v.Msg, c.brief())
+			}
+			if v := c3.judge(verr4, fmt.Sprintf("AFTER-REPAIR (the operations %q named as missing by the first validation were registered, then Validate again): ", k.Missing())); v != nil {
+				return v
+			}
+		}
+		return nil
+	}
+	if !c.Restricted() {
+		return nil
+	}
+	return c.serve(doc, api, log, early)
+}
+
+// judge compares one verdict of Validate with the model's for the case.
+func (c Case) judge(verr error, prefix string) *kit.Violation {
 	cats := c.Model()
 	ff := FirstFailing(cats)
 	if ff >= 0 {
 		k := cats[ff]
 		want := fmt.Sprintf("want a failure of category %q with missing registrations %q and superfluous registrations %q", k.Name, k.Missing(), k.Superfluous())
 		if verr == nil {
-			return kit.Failf("VALIDATE-PASSES although the registrations do not match: %s\n%s", want, c.brief())
+			return kit.Failf("%sVALIDATE-PASSES although the registrations do not match: %s\n%s", prefix, want, c.brief())
 		}
 		var vf *oerr.APIVerificationFailed
 		if !errors.As(verr, &vf) {
-			return kit.Failf("VALIDATE-ERROR of an unexpected kind %T %v: %s\n%s", verr, verr, want, c.brief())
+			return kit.Failf("%sVALIDATE-ERROR of an unexpected kind %T %v: %s\n%s", prefix, verr, verr, want, c.brief())
 		}
 		if vf.Section != k.Name {
-			return kit.Failf("VALIDATE-CATEGORY got %q (missing %q, superfluous %q): %s\n%s", vf.Section, vf.MissingRegistration, vf.MissingSpecification, want, c.brief())
+			return kit.Failf("%sVALIDATE-CATEGORY got %q (missing %q, superfluous %q): %s\n%s", prefix, vf.Section, vf.MissingRegistration, vf.MissingSpecification, want, c.brief())
 		}
 		if !same(sortedCopy(vf.MissingRegistration), k.Missing()) {
-			return kit.Failf("VALIDATE-MISSING category %q reports missing registrations %q: %s\n%s", vf.Section, vf.MissingRegistration, want, c.brief())
+			return kit.Failf("%sVALIDATE-MISSING category %q reports missing registrations %q: %s\n%s", prefix, vf.Section, vf.MissingRegistration, want, c.brief())
 		}
 		if !same(sortedCopy(vf.MissingSpecification), k.Superfluous()) {
-			return kit.Failf("VALIDATE-SUPERFLUOUS category %q reports superfluous registrations %q: %s\n%s", vf.Section, vf.MissingSpecification, want, c.brief())
+			return kit.Failf("%sVALIDATE-SUPERFLUOUS category %q reports superfluous registrations %q: %s\n%s", prefix, vf.Section, vf.MissingSpecification, want, c.brief())
 		}
 		for _, n := range append(k.Missing(), k.Superfluous()...) {
 			if !strings.Contains(verr.Error(), n) {
-				return kit.Failf("VALIDATE-MESSAGE %q does not name %q: %s\n%s", verr.Error(), n, want, c.brief())
+				return kit.Failf("%sVALIDATE-MESSAGE %q does not name %q: %s\n%s", prefix, verr.Error(), n, want, c.brief())
 			}
 		}
 		return nil
 	}
 	if verr != nil {
-		return kit.Failf("VALIDATE-FAILS although all five categories coincide: %v\n%s", verr, c.brief())
+		return kit.Failf("%sVALIDATE-FAILS although all five categories coincide: %v\n%s", prefix, verr, c.brief())
 	}
-	if !c.Restricted() {
-		return nil
-	}
-	return c.serve(doc, api, log, early)
+	return nil
 }
 
 // Plan of the serving part: which requests are sent to which operation.
